@@ -1,5 +1,5 @@
 From Coq Require Import List NArith Bool.
-From LTV.C12 Require Import Model ProofsA ProofsB ProofsC ProofsD ProofsE ProofsF ProofsG ProofsH ProofsI ProofsJ.
+From LTV.C12 Require Import Model ProofsA ProofsB ProofsC ProofsD ProofsE ProofsF ProofsG ProofsH ProofsI ProofsJ ProofsK.
 Import ListNotations.
 Local Open Scope N_scope.
 
@@ -242,3 +242,19 @@ Theorem served_means_updated :
                  same_quota t' (s_tl s2) /\ s_rate s2 = s_rate s.
 Proof. exact ProofsJ.proc_updates. Qed.
 Print Assumptions served_means_updated.
+
+(* per-list rate bound through ticks as a run-level total (root list l = 0 or slave i = l-1): over
+   any window of valid ops in which the root limit stays set (rate changes allowed), payload moved
+   through the list + what it still holds <= what it held at the start + the sum over the ticks of
+   its share need_of(tick quota, fraction, its own rate); each share <= elapsed x own rate / 10^6 *)
+Theorem rate_bound_per_list :
+  forall ops x l t, sinv x -> valid_opsb x ops = true -> stable_opsb x ops = true -> get_tl x l = Some t ->
+  lheld (final x ops) l + fst (ltotals l x ops) <= held t + snd (ltotals l x ops).
+Proof. exact ProofsK.rate_bound_per_list. Qed.
+Print Assumptions rate_bound_per_list.
+
+Theorem per_list_share_le :
+  forall x o l, lrate x l <> 0 ->
+  lgrant l x o <= match o with OTick dt => (now x + dt - last_tick x) * lrate x l / 1000000 | _ => 0 end.
+Proof. exact ProofsK.lgrant_le. Qed.
+Print Assumptions per_list_share_le.
